@@ -193,6 +193,9 @@ pub fn worker_main(prop: &PropDef, args: &[String]) {
         }
         // commutative digest: independent of how runs are partitioned over workers
         log_digest = log_digest.wrapping_add(rng::fnv_u64(rng::fnv_u64(rng::fnv_u64(rng::FNV_OFFSET, i), rec.tape_hash), rec.sched_hash));
+        if std::env::var_os("WFSIM_DUMP").is_some() {
+            eprintln!("H {i} {:016x} {:016x} {}", rec.tape_hash, rec.sched_hash, rec.steps);
+        }
         if let Some(s) = rec.sample {
             if samples.len() < want_samples {
                 samples.push(s);
